@@ -1356,6 +1356,20 @@ func unmarshalTimestamp(info TypeInfo, data []byte, value interface{}) error {
 
 const millisecondsInADay int64 = 24 * 60 * 60 * 1000
 
+// encDate converts milliseconds since the Unix epoch to the CQL date encoding:
+// days since the epoch, rounded towards negative infinity, centred on 2^31.
+func encDate(timestamp int64) ([]byte, error) {
+	days := timestamp / millisecondsInADay
+	if timestamp%millisecondsInADay < 0 {
+		days--
+	}
+	x := days + int64(1<<31)
+	if x < 0 || x > math.MaxUint32 {
+		return nil, marshalErrorf("marshal date: timestamp %d out of range", timestamp)
+	}
+	return encInt(int32(x)), nil
+}
+
 func marshalDate(info TypeInfo, value interface{}) ([]byte, error) {
 	var timestamp int64
 	switch v := value.(type) {
@@ -1364,23 +1378,19 @@ func marshalDate(info TypeInfo, value interface{}) ([]byte, error) {
 	case unsetColumn:
 		return nil, nil
 	case int64:
-		timestamp = v
-		x := timestamp/millisecondsInADay + int64(1<<31)
-		return encInt(int32(x)), nil
+		return encDate(v)
 	case time.Time:
 		if v.IsZero() {
 			return []byte{}, nil
 		}
 		timestamp = int64(v.UTC().Unix()*1e3) + int64(v.UTC().Nanosecond()/1e6)
-		x := timestamp/millisecondsInADay + int64(1<<31)
-		return encInt(int32(x)), nil
+		return encDate(timestamp)
 	case *time.Time:
 		if v.IsZero() {
 			return []byte{}, nil
 		}
 		timestamp = int64(v.UTC().Unix()*1e3) + int64(v.UTC().Nanosecond()/1e6)
-		x := timestamp/millisecondsInADay + int64(1<<31)
-		return encInt(int32(x)), nil
+		return encDate(timestamp)
 	case string:
 		if v == "" {
 			return []byte{}, nil
@@ -1390,8 +1400,7 @@ func marshalDate(info TypeInfo, value interface{}) ([]byte, error) {
 			return nil, marshalErrorf("can not marshal %T into %s, date layout must be '2006-01-02'", value, info)
 		}
 		timestamp = int64(t.UTC().Unix()*1e3) + int64(t.UTC().Nanosecond()/1e6)
-		x := timestamp/millisecondsInADay + int64(1<<31)
-		return encInt(int32(x)), nil
+		return encDate(timestamp)
 	}
 
 	if value == nil {
